@@ -109,9 +109,14 @@ def r_forward_ingest(ctx, db, est, max_items=3, state_assume=None, ctor_args=Non
                            "%s with %d item(s) equals add() in a loop, leaf by leaf, and exhausts its input [path: %s]" % (kind, k, pcs),
                            sample={"items": k, "leaves": sorted(want)[:5]}, inc=(not ok and soft and not bad and ended))
                 elif p.status == "panic":
-                    if is_debug_only(p.info.get("span") or {}):
-                        continue
-                    # panics of add itself (e.g. arithmetic overflow of counters) are not ingestion defects
+                    # panics of add itself (e.g. arithmetic overflow of counters, add's own assertions) are
+                    # not ingestion defects; an assertion of the ingestion impl's own (debug or not) is: the
+                    # sibling paths (add in a loop, the other impls) do not have it
+                    stack = p.info.get("stack")
+                    if stack and est.add not in stack and p.info.get("kind") not in ("infeasible",):
+                        ctx.ob("R-FORWARD", key + ":own-panic", fp, fsite, False,
+                               "%s can panic outside add() (%s at %s): add() in a loop on the same items cannot [path: %s]" % (
+                                   kind, p.info.get("kind"), site(p.info.get("span")), pcs))
                     continue
                 else:
                     ctx.ob("R-FORWARD", key, fp, fsite, False, str(p.info.get("why")), inc=True)
@@ -362,6 +367,7 @@ def _is_serde(trait, name):
 
 
 def r_serde(ctx, db, adt_path):
+    adt_path = db.canon(adt_path)
     a = db.adts.get(adt_path)
     if a is None:
         return 0
